@@ -295,7 +295,9 @@ def plan_C03(run):
                   exhaustive_note="all a in 0..N-1 x all B in 1..N-1 for every listed prime N and generator")
     rb = run.model("clientbig", "MCClientBig", "MCClientBig_%s.cfg" % ("t" if run.thorough else "q"), workers=2,
                    exhaustive_note="built-in prime x announced generators; primes of every byte length 2..32 x generators (sampled keys)")
-    scen = run.scen_file("clientgroups", rb.replay + r.replay)
+    rc = run.model("clientcomposite", "MCClientComposite", "MCClientComposite.cfg", workers=2,
+                   exhaustive_note="announced NON-prime moduli (squares, cubes, fourth powers, products, 2^16 * p; 4 to 80 bits) x server keys that make the client's base a zero divisor, a unit, N - 1, 1 or 2")
+    scen = run.scen_file("clientgroups", rb.replay + rc.replay + r.replay)
     tr = run.harness("clientgroups", scen=scen)
     run.validate(tr, "TraceAuth")
     tr = run.harness("interleave")
@@ -533,7 +535,8 @@ def plan_C19(run):
     r = run.model("clientgroups", "MCClientGroups", "MCClientGroups_%s.cfg" % ("t" if run.thorough else "q"), workers=2)
     rb = run.model("clientbig", "MCClientBig", "MCClientBig_%s.cfg" % ("t" if run.thorough else "q"), workers=2,
                    exhaustive_note="built-in prime x announced generators; primes of every byte length 2..32 x generators (sampled keys)")
-    cg = run.scen_file("clientgroups", rb.replay + (r.replay if run.thorough else r.replay[::3]))
+    rc = run.model("clientcomposite", "MCClientComposite", "MCClientComposite.cfg", workers=2)
+    cg = run.scen_file("clientgroups", rb.replay + rc.replay + (r.replay if run.thorough else r.replay[::3]))
     corpus = CORPUS if os.path.exists(CORPUS) else None
     ra = run.model("adversary-cases", "MCAdversary", "MCAdversary_cases.cfg", workers=1)
     adv = run.scen_file("adversary", ra.replay)
